@@ -302,8 +302,11 @@ func (e *Exec) run() {
 			e.inputs = append(e.inputs, ModelVar{Name: name + sd.Path, Term: pv.S[i]})
 		}
 	}
+	e.rpParams, e.rpNames, e.rpResults, e.rpExitE = []Value{}, nil, nil, nil
 	for _, p := range fn.Params {
 		addParam(p, p.Name())
+		e.rpParams = append(e.rpParams, e.vals[p])
+		e.rpNames = append(e.rpNames, p.Name())
 	}
 	for _, fv := range fn.FreeVars {
 		addParam(fv, fv.Name())
@@ -618,6 +621,13 @@ func (e *Exec) finish(vars map[string]Value) {
 	}
 	if nres == 1 {
 		env.vars["result"] = results[0]
+	}
+	e.rpResults = results
+	e.rpExitE = map[string]string{}
+	for name, term := range exit.comp {
+		if strings.HasPrefix(name, "E|") {
+			e.rpExitE[name] = term
+		}
 	}
 	for _, ga := range e.Con.GhostRet {
 		// locals that exist on every return path are in scope (after parameters and results)
